@@ -17,6 +17,7 @@ import re
 
 from .. import core
 from ..skq import Lib, D, Dn, where, val, TYPES, pm, classes, calls, kw
+from ..pymodel import pmatch
 
 PROTO_T = TYPES + "%proto.py.j2"
 ADS_PROTO_T = "%namespace/%name/%version/%sub/types/%proto.py.j2"
@@ -275,6 +276,41 @@ def check_python(report):
              init.node.lineno, "_ProtoBuilder.__init__ orphan pass", "the late-resolution pass must raise on a field whose type is in neither table")
 
 
+def check_rel(report):
+    """C02.7: Address.rel decides how a field's message/enum type is written inside the class body of the message being emitted. It only
+    receives two Addresses, so it cannot know which names the class body has already bound (nested messages, enums); a bare name there is
+    looked up in the class namespace first. Same-file references must therefore be quoted (resolved by proto-plus after the module is
+    complete), except the one case that NEEDS the class namespace: a type nested in the message being written."""
+    from ..skq import pm
+    r = report.rule("C02.7", "Address.rel: same-file type references are quoted strings, except types nested in the message being written", floor=3)
+    fi = pm().func("gapic.schema.metadata.Address.rel")
+    fn = fi.node
+    r.need(len(fn.args.args) == 2, "rel(self, address)", "signature changed: the argument about what rel can know no longer applies")
+    A = fn.args.args[1].arg
+    same = [n for n in fn.body if isinstance(n, ast.If) and pmatch(f"self.package == {A}.package and self.module == {A}.module", n.test) is not None]
+    r.need(len(same) == 1, "rel: if self.package == address.package and self.module == address.module")
+    parents = {}
+    for n in ast.walk(same[0]):
+        for c in ast.iter_child_nodes(n):
+            parents[c] = n
+    rets = [n for n in ast.walk(same[0]) if isinstance(n, ast.Return)]
+    for ret in rets:
+        v = ret.value
+        r.instance(ast.unparse(ret)[:80])
+        quoted = isinstance(v, ast.JoinedStr) and isinstance(v.values[0], ast.Constant) and isinstance(v.values[-1], ast.Constant) \
+            and str(v.values[0].value)[:1] in ("'", '"') and str(v.values[-1].value)[-1:] == str(v.values[0].value)[:1]
+        guard = parents.get(ret)
+        contained = pmatch("'.'.join(self.parent[1:] + (self.name,))", v) is not None and isinstance(guard, ast.If) \
+            and pmatch(f"self.parent and self.parent[0] == {A}.name", guard.test) is not None
+        r.check(quoted or contained, fi.module.path, ret.lineno, f"rel: {ast.unparse(ret)[:90]}",
+                "an unquoted same-file reference is evaluated in the class body being written, where a nested message or enum with the same "
+                "simple name shadows the module-level one (and a later declaration is not bound yet): the field silently points at the wrong type")
+    last = fn.body[-1]
+    r.instance("other files")
+    r.check(isinstance(last, ast.Return) and ast.unparse(last.value) == "str(self)", fi.module.path, last.lineno, "rel: return str(self)",
+            "references into other modules are written as module.Name")
+
+
 def run(report: core.Report):
     report.explanation = (
         "Slot agreement between the input descriptor and the emitted proto-plus declarations, decided on skeletons of "
@@ -283,6 +319,7 @@ def run(report: core.Report):
     report.assumptions.append("proto-plus / protobuf run-time behaviour (serialisation, JSON mapping) is outside the analysis")
     from .common_rules import loader_order
     loader_order(report, "C02.O", "field numbers, oneof membership and nesting are emitted in the order read")
+    check_rel(report)
     lib = Lib()
     check_proto_template(report, lib, PROTO_T, report.tier)
     if report.tier == "thorough":
